@@ -34,6 +34,12 @@ int main(void)
 			memset(err->buf, 0xAA, n);
 			err_init(err, n);
 			show();
+		} else if (sscanf(line, "addbad %u", &ok) == 1) {
+			/* a format string vsnprintf() rejects: the message becomes "(bad format string)" */
+			alloc_plan(ok ? ~0UL : 0UL, 4);
+			err_add(err, "%9999999999999d", 1);
+			alloc_reset();
+			show();
 		} else if (sscanf(line, "add %s %u", hex, &ok) == 2 && strlen(hex) > 1) {
 			size_t l = strlen(hex) / 2, i; unsigned v;
 			for (i = 0; i < l; ++i) { sscanf(hex + 2 * i, "%2x", &v); msg[i] = v; }
